@@ -391,6 +391,150 @@ def translate_adopt(repo):
     return text
 
 
+# ---------------------------------------------------------------------------------------------------
+# cycle.rs: the reachability trace. The loop skeleton of `cycle_refs` (worklist popped from the back,
+# visited set, one pass over the popped node's table) and the shape of `orphaned_cycle` are matched
+# against fixed templates; the two places that carry the decision logic are TRANSLATED:
+#   * the body of `for (&link, &strong) in links.iter() { .. }`  -> [g_entry_body : list estmt]
+#   * the predicate of `.any(|(item, &cycle_owned_refs)| ..)`       -> [g_external : N -> N -> bool]
+SKEL_REFS = (r"let mut cycle_owned_refs = HashMap::default\(\); let mut discovered = vec!\[this\]; "
+             r"let mut visited = HashSet::default\(\); while let Some\(node\) = discovered\.pop\(\) \{ "
+             r"if visited\.contains\(&node\) \{ continue; \} visited\.insert\(node\); "
+             r"let links = unsafe \{ node\.as_ref\(\)\.links\(\)\.borrow\(\) \}; "
+             r"for \(&link, &strong\) in links\.iter\(\) \{ (?P<body>.*) \} \} "
+             r"(?:debug_cycle\(&cycle_owned_refs\); )?cycle_owned_refs$")
+SKEL_ORPH = (r"let cycle = cycle_refs\(Link::forward\(this\.ptr\)\); if cycle\.is_empty\(\) \{ return None; \} "
+             r"let has_external_owners = cycle \.iter\(\) \.any\(\|\(item, &cycle_owned_refs\)\| (?P<pred>[^;]*)\); "
+             r"if has_external_owners \{ None \} else \{ Some\(cycle\) \}$")
+KINDS = {"Forward": "Fwd", "Backward": "Bwd", "Loopback": "Loop"}
+
+
+def _fn_body(src, header_re):
+    mm = re.search(header_re, src)
+    if not mm:
+        raise Unsupported("function not found: " + header_re)
+    i, depth = mm.end(), 1
+    while depth:
+        ch = src[i]
+        depth += ch == "{"
+        depth -= ch == "}"
+        i += 1
+    return src[mm.end():i - 1]
+
+
+def _norm(body):
+    body = re.sub(r"//[^\n]*", "", body)
+    # instrumentation and debug-only statements are not part of the behaviour under translation
+    body = re.sub(r"#\[cfg\(cactusref_verif\)\]\s*[^;]*;", "", body)
+    body = re.sub(r"#\[cfg\(debug_assertions\)\]\s*", "", body)
+    return " ".join(body.split())
+
+
+def entry_stmts(txt):
+    """-> (list of Gallina estmt terms, rest)"""
+    out = []
+    txt = txt.strip()
+    while txt:
+        m = re.match(r"if let (Kind::\w+(?: \| Kind::\w+)*) = link\.kind\(\) \{", txt)
+        if m:
+            ks = [KINDS[k.strip()[6:]] for k in m.group(1).split("|")]
+            depth, i = 1, m.end()
+            while depth:
+                depth += txt[i] == "{"
+                depth -= txt[i] == "}"
+                i += 1
+            th = entry_stmts(txt[m.end():i - 1])
+            rest = txt[i:].strip()
+            el = []
+            m2 = re.match(r"else \{", rest)
+            if m2:
+                depth, j = 1, m2.end()
+                while depth:
+                    depth += rest[j] == "{"
+                    depth -= rest[j] == "}"
+                    j += 1
+                el = entry_stmts(rest[m2.end():j - 1])
+                rest = rest[j:].strip()
+            out.append("EIfKind [%s] [%s] [%s]" % ("; ".join(ks), "; ".join(th), "; ".join(el)))
+            txt = rest
+            continue
+        for pat, term in ((r"continue;", "EContinue"),
+                          (r"cycle_owned_refs \.entry\(link\) \.and_modify\(\|count\| \*count \+= strong\) \.or_insert\(strong\);", "EAct EAdd"),
+                          (r"cycle_owned_refs\.entry\(link\)\.and_modify\(\|count\| \*count \+= strong\)\.or_insert\(strong\);", "EAct EAdd"),
+                          (r"discovered\.push\(link\);", "EAct EPush"),
+                          (r"cycle_owned_refs\.entry\(link\.as_forward\(\)\)\.or_default\(\);", "EAct EDefault")):
+            m = re.match(pat, txt)
+            if m:
+                out.append(term)
+                txt = txt[m.end():].strip()
+                break
+        else:
+            raise Unsupported("cycle.rs entry statement outside the subset: %r" % txt[:70])
+    return out
+
+
+def pred_expr(txt):
+    toks = re.findall(r"item\.strong\(\)|cycle_owned_refs|\d+|>=|<=|==|!=|[<>+\-()]", txt)
+    if "".join(toks) != txt.replace(" ", ""):
+        raise Unsupported("predicate outside the subset: %r" % txt)
+    pos = [0]
+
+    def atom():
+        t = toks[pos[0]]
+        pos[0] += 1
+        if t == "item.strong()":
+            return "strong"
+        if t == "cycle_owned_refs":
+            return "owned"
+        if t.isdigit():
+            return "%s%%N" % t
+        if t == "(":
+            e = summ()
+            pos[0] += 1
+            return "(%s)" % e
+        raise Unsupported("predicate token " + t)
+
+    def summ():
+        e = atom()
+        while pos[0] < len(toks) and toks[pos[0]] in "+-":
+            op = toks[pos[0]]
+            pos[0] += 1
+            e = "(%s %s %s)" % (e, op, atom())
+        return e
+    l = summ()
+    if pos[0] >= len(toks):
+        raise Unsupported("predicate is not a comparison")
+    op = toks[pos[0]]
+    pos[0] += 1
+    r = summ()
+    if pos[0] != len(toks):
+        raise Unsupported("trailing tokens in predicate")
+    return {">": "(%s <? %s)" % (r, l), "<": "(%s <? %s)" % (l, r), ">=": "(%s <=? %s)" % (r, l),
+            "<=": "(%s <=? %s)" % (l, r), "==": "(%s =? %s)" % (l, r), "!=": "(negb (%s =? %s))" % (l, r)}[op]
+
+
+def translate_cycle(repo):
+    path = repo + "/src/cycle.rs"
+    src = open(path).read()
+    refs = _norm(_fn_body(src, r"fn cycle_refs<T>\(this: Link<T>\) -> HashMap<Link<T>, usize> \{"))
+    m = re.match(SKEL_REFS, refs)
+    if not m:
+        raise Unsupported("cycle_refs no longer has the loop skeleton the model's trace_go transcribes")
+    body = entry_stmts(m.group("body"))
+    orph = _norm(_fn_body(src, r"fn orphaned_cycle\(this: &Self\) -> Option<HashMap<Link<T>, usize>> \{"))
+    m2 = re.match(SKEL_ORPH, orph)
+    if not m2:
+        raise Unsupported("orphaned_cycle no longer has the shape the model transcribes")
+    pred = pred_expr(m2.group("pred").strip())
+    return ("(* GENERATED by tools/rs2v.py from %s -- do not edit. *)\n"
+            "From Coq Require Import NArith List. Import ListNotations.\n"
+            "From CR Require Import Base.\nFrom Gen Require Import CycleLang.\nLocal Open Scope N_scope.\n\n"
+            "(* body of `for (&link, &strong) in links.iter()` in cycle_refs *)\n"
+            "Definition g_entry_body : list estmt :=\n  [ %s ].\n\n"
+            "(* `item.strong() .. cycle_owned_refs` in orphaned_cycle's `.any(..)` *)\n"
+            "Definition g_external (strong owned : N) : bool := %s.\n" % (path, ";\n    ".join(body), pred))
+
+
 if __name__ == "__main__":
     # rs2v.py <repo> <outdir> <counters|adopt>   (no outdir: print)
     import os
@@ -400,8 +544,10 @@ if __name__ == "__main__":
     try:
         if part == "counters":
             text, name = translate(repo)[0], "Counters.v"
-        else:
+        elif part == "adopt":
             text, name = translate_adopt(repo), "AdoptGen.v"
+        else:
+            text, name = translate_cycle(repo), "CycleGen.v"
     except (Unsupported, ValueError, IndexError) as e:
         print("rs2v (%s): outside the translated subset: %s" % (part, e), file=sys.stderr)
         sys.exit(2)
